@@ -73,13 +73,20 @@ def cases(ctx):
             score = rng.integers(0, 6, nrows) / 5.0
         else:
             score = rng.normal(0, 1, nrows)
+        f32 = rng.random() < 0.2
+        if f32:  # narrow float score column (typical model output); thresholds stay float64
+            score = score.astype(np.float32)
         lab = rng.integers(0, 2, nrows)
         if rng.random() < 0.2:  # some group loses a class
             g0 = cols["g0"][0]
             lab = np.where(np.asarray(cols["g0"]) == g0, 1, lab)
         strlab = rng.random() < 0.2
         nthr = int(rng.integers(1, 4))
-        thr = np.sort(rng.choice(np.concatenate([score, rng.uniform(score.min(), score.max(), 3)]), nthr, replace=False))
+        cand = np.concatenate([score.astype(float), rng.uniform(float(score.min()), float(score.max()), 3)])
+        if f32:  # thresholds that are NOT representable in float32 but round onto a score there
+            near = rng.choice(score.astype(float), 3) + rng.choice([-1e-9, 1e-9], 3)
+            cand = np.concatenate([cand, near, near])
+        thr = np.sort(rng.choice(cand, nthr, replace=False))
         form = str(rng.choice(["list", "array", "scalar", "0d"]))
         if form in ("scalar", "0d"):
             thr = thr[:1]
@@ -127,7 +134,7 @@ def execute(ctx, case):
     sess = ctx.sess
     cols = case["cols"]
     gcols = list(cols)
-    score = np.asarray(case["score"], dtype=float)
+    score = np.asarray(case["score"])  # keeps a float32 column float32; the reference compares the exact values in float64
     lab = np.asarray(case["label"])
     labels = np.where(lab == 1, "y", "n") if case["strlab"] else lab
     pos_label = "y" if case["strlab"] else 1
